@@ -311,7 +311,10 @@ def run_case(case, ns):
         if isinstance(e, pyvc_rt.ScriptExhausted):
             obs['script_exhausted'] = True
         obs['exc_class'] = type(e).__module__ + '.' + type(e).__name__
-        obs['exc_msg'] = str(e)[:300]
+        try:
+            obs['exc_msg'] = str(e)[:300]
+        except Exception:   # a stubbed exception object built without its constructor
+            obs['exc_msg'] = '<unprintable %s>' % type(e).__name__
         obs['exc_mro'] = [c.__module__ + '.' + c.__name__ for c in type(e).__mro__]
         tb = traceback.extract_tb(e.__traceback__)
         obs['exc_where'] = '%s:%s' % (os.path.basename(tb[-1].filename), tb[-1].lineno) if tb else None
